@@ -26,22 +26,24 @@ def natDigits (n : Nat) : Bytes := natDigitsAux (n + 1) n []
 def fmtInt (v : Int) : Bytes :=
   if v < 0 then 45 :: natDigits v.natAbs else natDigits v.natAbs
 
--- precedence levels of ast/node.go (precTernary = -1 … precPrimary = 7), shifted by one to stay in Nat
+-- precedence levels of ast/node.go (precTernary = -1 … precPrimary = 8), shifted by one to stay in Nat
 def precTernary : Nat := 0
 def precElvis : Nat := 1
 def precOr : Nat := 2
 def precAnd : Nat := 3
-def precCompare : Nat := 4
-def precAdd : Nat := 5
-def precMul : Nat := 6
-def precUnary : Nat := 7
-def precPrimary : Nat := 8
+def precEquality : Nat := 4
+def precCompare : Nat := 5
+def precAdd : Nat := 6
+def precMul : Nat := 7
+def precUnary : Nat := 8
+def precPrimary : Nat := 9
 
 def binPrec : BinOp → Nat
   | .elvis => precElvis
   | .or => precOr
   | .and => precAnd
-  | .eq | .ne | .lt | .le | .gt | .ge => precCompare
+  | .eq | .ne => precEquality
+  | .lt | .le | .gt | .ge => precCompare
   | .add | .sub => precAdd
   | .mul | .div | .mod => precMul
 
